@@ -41,9 +41,10 @@ class Headers(with_metaclass(HTTPSemantic, CaseInsensitiveDict)):
 
 	@classmethod
 	def formatkey(cls, key: Union[bytes, str]) -> str:
-		key = CaseInsensitiveDict.formatkey(key)
+		key = to_unicode(key)
 		if cls.HEADER_RE.search(key.encode('utf-8')):
 			raise InvalidHeader(_(u"Invalid header name: %r"), key)
+		key = CaseInsensitiveDict.formatkey(key)
 		try:
 			return to_unicode(HEADER[key].__name__)
 		except KeyError:
